@@ -267,6 +267,11 @@ func (s *JavaFullListener) EnterAnnotation(ctx *parser.AnnotationContext) {
 		return
 	}
 
+	// an annotation used as the argument of another one does not annotate the declaration
+	if _, nested := ctx.GetParent().(*parser.ElementValueContext); nested {
+		return
+	}
+
 	annotationName := ctx.QualifiedName().GetText()
 	if annotationName == "Override" {
 		isOverrideMethod = true
